@@ -2,6 +2,10 @@
 """Regenerates the seeded-changes table of DESIGN.md section 11.6 from seeded/*/meta.json."""
 import json, glob, os, re
 NOTES = {
+ 'C19-r10-errs-cause-loses-sentinel': 'Strengthened: first missed; failing readers now fail with ten kinds of error (plain, io sentinels, a custom type, %w chains, errs.New / errs.Wrap with causes and contexts).',
+ 'C16-r10-v2-score-memo-key-eviction': 'Strengthened: first missed (the shared v2 object had equal base and adjusted impact); the shared objects now include vectors whose levels disagree (requirements that change the adjusted impact, Modified Scope different from Scope) and the lower views are asked Score, Severity and Encode.',
+ 'C08-r10-max-vector-len-74': 'Strengthened: first missed; vectors in which every metric takes one of its longest (or shortest) value codes at once are generated for all levels.',
+ 'C05-r10-env-memo-keyed-by-temporal-score': 'Strengthened: first missed; the adjusted base scores are computed once more on ONE carrier per (CR, IR, AR) with the base metrics swept in the order of their base score.',
  'C20-r9-code-table-low-byte': 'Strengthened: first missed; the code probes now contain look-alikes outside ASCII (same low byte or low 7 bits as a code character, fullwidth forms, combining marks, high-bit bytes, a leading BOM).',
  'C18-r9-value-index-uint8': 'Strengthened: first missed; out-of-range enumeration values now include those congruent to a defined value modulo 2^8, 2^16 and 2^32 and the extreme integers (names, printers).',
  'C19-r8-size-not-len-partly-consumed-reader': 'Strengthened: first missed; exports now also read from readers of the standard library (strings, bytes, Buffer, SectionReader, bufio, LimitReader, MultiReader), fresh, partly consumed or positioned by Seek.',
